@@ -396,6 +396,24 @@ pub fn rows_c09(args: &[String]) -> i32 {
             }
         }
     }
+    // descriptions and extended texts with embedded double quotes (must be doubled) and non-ASCII bytes (cannot be sent)
+    for (c, m) in [(321i16, &b"Relay \"K2\" stuck"[..]), (42, b"Bad \"mode\" value"), (-310, b"\""), (7, b"\"\""), (8, b"a\"")] {
+        for ext in [None, Some(&b"see \"log\""[..]), Some(&b"plain"[..])] {
+            let e = match ext { None => Error::custom(c, m), Some(x) => Error::custom(c, m).extended(x) };
+            let text = fmt(&e).unwrap_or_default();
+            out.put(&json!({"t": "err", "code": c, "msg": bytes_json(m), "ext": bytes_json(ext.unwrap_or(b"")), "text": bytes_json(&text)}));
+        }
+    }
+    {
+        let e = Error::new(ErrorCode::ExecutionError).extended(b"say \"hi\"");
+        let text = fmt(&e).unwrap_or_default();
+        out.put(&json!({"t": "err", "code": e.get_code(), "msg": bytes_json(e.get_message()), "ext": bytes_json(b"say \"hi\""), "text": bytes_json(&text)}));
+    }
+    for (m, ext) in [(&b"caf\xc3\xa9"[..], None), (b"plain", Some(&b"caf\xc3\xa9"[..])), (b"\xff", None), (b"\xb5V", Some(&b"x"[..]))] {
+        let e = match ext { None => Error::custom(55, m), Some(x) => Error::custom(55, m).extended(x) };
+        let r = fmt(&e);
+        out.put(&json!({"t": "unitfail", "kind": "non-ascii-error-item", "pos": 0, "finerr": r.is_none(), "text": bytes_json(&r.unwrap_or_default())}));
+    }
     for (c, m) in [(1i16, &b"One"[..]), (32767, b"Max custom"), (-32768, b"Min"), (100, b"it's"), (-301, b"x,y")] {
         let e = Error::custom(c, m);
         let text = fmt(&e).unwrap_or_default();
